@@ -9,6 +9,7 @@
 package main
 
 import (
+	nooptrace "go.opentelemetry.io/otel/trace/noop"
 	"bufio"
 	"context"
 	"encoding/json"
@@ -145,6 +146,12 @@ func runBeh(idx int, steps []Step) []*Mismatch {
 	tel := componenttest.NewTelemetry()
 	defer func() { _ = tel.Shutdown(context.Background()) }()
 	ts := tel.NewTelemetrySettings()
+	if idx%3 == 1 {
+		// the collector's own traces switched off (service::telemetry::traces::level none): a no-op TracerProvider, whose spans
+		// have no valid span context, next to a real MeterProvider.  The item counters do not depend on tracing (seeded
+		// change C19-7 returned early from the end-of-operation bookkeeping when the span context was invalid).
+		ts.TracerProvider = nooptrace.NewTracerProvider()
+	}
 	rset := receiver.Settings{ID: component.MustNewID("vrecv"), TelemetrySettings: ts, BuildInfo: component.NewDefaultBuildInfo()}
 	pset := processor.Settings{ID: component.MustNewID("vproc"), TelemetrySettings: ts, BuildInfo: component.NewDefaultBuildInfo()}
 	obs, err := receiverhelper.NewObsReport(receiverhelper.ObsReportSettings{ReceiverID: rset.ID, Transport: "test", ReceiverCreateSettings: rset})
